@@ -862,6 +862,17 @@ def featurizer_clauses(df, n_train, features, fixed_effects, states_sep=()):
         made = any(c.endswith("_" + st) for c in x_all.columns if c not in df.columns)
         if made and not has_rep:
             return {"clause": "per-state feature copies only for states that have reporting units", "state": st}
+        for f in features:
+            name = f"{f}_{st}"
+            if name in x_all.columns:
+                exp = np.where(df.postal_code == st, df[f], 0.0)
+                if not np.allclose(x_all[name].values, exp):
+                    return {"clause": "a per-state copy holds the feature inside the state and zero outside", "column": name, "observed": [float(v) for v in x_all[name].values], "expected": [float(v) for v in exp]}
+    if states_sep:
+        for f in features:
+            # (with separate states the column that is centred is the feature with the separate states' rows set to 0)
+            if f in x_all.columns and abs(float(x_all[f].mean())) > 1e-9:
+                return {"clause": "continuous features are centred over all units", "feature": f, "mean_over_all_units": float(x_all[f].mean())}
     return None
 
 
@@ -930,10 +941,19 @@ def unexpected_id_replay(parts, district):
     # a second unit outside the baseline whose feed row says 0 percent expected vote although votes are already counted
     uid0 = "_".join(c + "z" for c in clean)
     feed_rows.append({"postal_code": "ZZ", "geographic_unit_fips": uid0, "percent_expected_vote": 0.0, "results_turnout": 11.0})
+    # two requested estimands; a third unit outside the baseline has delivered one of the two counts only (the other is
+    # missing): it is an unexpected unit like any other
+    uid1 = "_".join(c + "y" for c in clean)
+    for r_ in rows + feed_rows:
+        r_["results_dem"] = 40.0
+    for r_ in rows:
+        r_["last_election_results_dem"] = 41.0
+    feed_rows.append({"postal_code": "ZZ", "geographic_unit_fips": uid1, "percent_expected_vote": 80.0, "results_turnout": 40.0, "results_dem": float("nan")})
+    cols = cols + ["results_dem", "last_election_results_dem"]
     h = CombinedDataHandler.__new__(CombinedDataHandler)
-    h.estimands = ["turnout"]
+    h.estimands = ["turnout", "dem"]
     h.data = pd.DataFrame(rows, columns=cols)
-    h.current_data = pd.DataFrame(feed_rows, columns=["postal_code", "geographic_unit_fips", "percent_expected_vote", "results_turnout"])
+    h.current_data = pd.DataFrame(feed_rows, columns=["postal_code", "geographic_unit_fips", "percent_expected_vote", "results_turnout", "results_dem"])
     h.preprocessed_data = h.data
     h.geographic_unit_type = "precinct-district" if district else "precinct"
     aggs = ["postal_code", "county_fips", "district", "unit"] if district else ["postal_code", "county_fips", "unit"]
@@ -948,7 +968,7 @@ def unexpected_id_replay(parts, district):
         if district:
             ok = ok and out["district"] == [clean[0]]
         out["rows"] = sorted(str(x) for x in un.geographic_unit_fips)
-        ok = ok and out["rows"] == sorted([uid, uid0])  # EVERY feed unit outside the baseline, whatever its percentage
+        ok = ok and out["rows"] == sorted([uid, uid0, uid1])  # EVERY feed unit outside the baseline, whatever its percentage / missing counts
         out["ok"] = bool(ok)
         out["want_county"] = want_county
     except Exception as e:  # noqa
